@@ -724,7 +724,23 @@ void ApiRun::op_iter_remove(const Op &o) {
 void ApiRun::op_iter_end(const Op &o, bool abort, bool after_fault) {
     int ci = pick_iter_cif(this, o.a); if (ci < 0) SKIP("no open iterator");
     RCif &c = cifs[(size_t) ci]; HIter &hi = iters[(size_t) c.iter];
-    int rc = abort ? CALLN("cif_pktitr_abort", cif_pktitr_abort(hi.it)) : CALLN("cif_pktitr_close", cif_pktitr_close(hi.it));
+    // C17: close / abort themselves run under one failing allocation now and then (the iterator is gone afterwards either way)
+    bool faulted_end = cfg.enumerate_alloc && !after_fault && (o.seed % 3) == 0;
+    iter_fault_hit = false;
+    int rc = faulted_end ? (abort ? CALLI("cif_pktitr_abort", cif_pktitr_abort(hi.it)) : CALLI("cif_pktitr_close", cif_pktitr_close(hi.it)))
+                         : (abort ? CALLN("cif_pktitr_abort", cif_pktitr_abort(hi.it)) : CALLN("cif_pktitr_close", cif_pktitr_close(hi.it)));
+    if (faulted_end && iter_fault_hit) {
+        // the call failed for lack of memory: a failed commit is rolled back by the library, a failed rollback leaves the transaction
+        // open (recorded design limitation, see TxMonitor) -- in both cases nothing of the transaction may survive
+        hi.it = NULL; loops[(size_t) hi.loop_slot].locked = false; c.iter = -1; iter_fault_hit = false;
+        g_stats.inc(abort ? "iter.abort_failed_oom" : "iter.close_failed_oom");
+        tx_check(abort ? "cif_pktitr_abort" : "cif_pktitr_close", rc, 0, last_fault_sq);
+        c.model = hi.snapshot;
+        for (size_t k = hi.loops_at_open; k < loops.size(); ++k) if (loops[k].h && loops[k].cif == ci) free_loop_slot((int) k);
+        for (size_t k = hi.conts_at_open; k < conts.size(); ++k) if (conts[k].h && conts[k].cif == ci && !find_cont(c.model, conts[k].uid)) free_cont_slot((int) k);
+        check_dump(ci, "after a close / abort that failed for lack of memory (everything reverted)");
+        return;
+    }
     if (after_fault && rc == CIF_ERROR && sqlite3_get_autocommit(c.cif->db) != 0) {
         // the storage engine rolled the transaction back by itself when the iterator call ran out of memory; the library's
         // own rollback then has nothing to roll back and cif_pktitr_abort reports CIF_ERROR although the abort took effect
